@@ -5,6 +5,8 @@
 // keys: mode=cs|api|lnv   cs  = constructCommon<parallel> with the driver's own (logging) candidates lambda
 //                          api = the public constructSurrogate overloads (refreshes are not logged)
 //                          lnv = threaded loadNeededValues
+//                          seq = no threads: beginConstruction, then loadConstructedPoints one point at a time in the order
+//                                given by seq=x,y,..;x,y,..  (values = the model function); shows what the grid does with an order
 //       grid=localp|semilocalp|localp0|sequence|global  dims outs depth order
 //       cand=surplus|aniso  tol crit(classic|parents|direction|fds|stable) limit(level limit per dimension, -1 = none)
 //       jobs batch budget   guess(0|1)  preload(0|1: load the initial grid points through loadNeededValues first)
@@ -18,7 +20,8 @@
 //   INIT loaded <n> p...         points loaded before the run (with their values V)
 //   CALL <thread> <enter> <exit> <serial0> <n> p... | v...     one model call (tickets from one global atomic counter)
 //   T <ticket> <buf> <event> <id> <n> | p... | v...            protocol trace (hooks + candidates lambda), sorted by ticket
-//   FINAL loaded <n> ...   LP <pid> <grid value %a>            loaded points of the final grid and the surrogate's value there
+//   FINAL loaded <n> ...   LP <pid> <surrogate %a..> | <loaded value %a..>   loaded points of the final grid: evaluate() and getLoadedValues()
+//   COMPLETE <0|1> <k>           local polynomial grids: is every loaded point's parent (per dimension) loaded; k = points with a missing parent
 //   RESULT ok | exception <what>
 #include <cstdio>
 #include <cstdlib>
@@ -146,6 +149,37 @@ static void model_core(const double *x, size_t n, double *y, size_t thread_id) {
     B.recs.push_back(std::move(r));
 }
 
+
+// parent-completeness of the loaded point set of a local polynomial grid (classification of a non-interpolating final grid)
+template<RuleLocal::erule er>
+static int count_missing_parents(const std::vector<double> &lp, size_t dims) {
+    std::map<double, int> idx;
+    for (int i = 0; i < 8192; i++) idx[RuleLocal::getNode<er>(i)] = i;
+    std::set<std::vector<int>> have;
+    std::vector<std::vector<int>> mi;
+    size_t n = lp.size() / dims;
+    for (size_t i = 0; i < n; i++) {
+        std::vector<int> p(dims);
+        for (size_t d = 0; d < dims; d++) { auto it = idx.find(lp[i * dims + d]); p[d] = (it == idx.end()) ? -7 : it->second; }
+        have.insert(p); mi.push_back(p);
+    }
+    int missing = 0;
+    for (auto &p : mi) {
+        bool bad = false;
+        for (size_t d = 0; d < dims && !bad; d++) {
+            if (p[d] < 0) continue;
+            int pars[2] = {RuleLocal::getParent<er>(p[d]), RuleLocal::getStepParent<er>(p[d])};
+            for (int par : pars) {
+                if (par < 0) continue;
+                std::vector<int> q = p; q[d] = par;
+                if (!have.count(q)) bad = true;
+            }
+        }
+        if (bad) missing++;
+    }
+    return missing;
+}
+
 static std::map<std::string, std::string> parse_args(int argc, char **argv) {
     std::map<std::string, std::string> m;
     for (int i = 1; i < argc; i++) {
@@ -266,6 +300,22 @@ int main(int argc, char **argv) {
             } else {
                 if (overwrite) loadNeededValues<true, true>(amodel, grid, jobs); else loadNeededValues<true, false>(amodel, grid, jobs);
             }
+        } else if (mode == "seq") {
+            grid.beginConstruction();
+            std::string sq = gets(a, "seq", "");
+            std::replace(sq.begin(), sq.end(), ';', ' ');
+            std::istringstream is(sq);
+            std::string tok;
+            while (is >> tok) {
+                std::replace(tok.begin(), tok.end(), ',', ' ');
+                std::istringstream ps(tok);
+                std::vector<double> x; double c;
+                while (ps >> c) x.push_back(c);
+                if (x.size() != (size_t) dims) throw std::runtime_error("seq: wrong point size");
+                std::vector<double> y((size_t) outs);
+                model_core(x.data(), 1, y.data(), 0);
+                grid.loadConstructedPoints(x, y);
+            }
         } else throw std::runtime_error("unknown mode");
     } catch (std::exception &e) {
         result = std::string("exception ") + e.what();
@@ -334,11 +384,21 @@ int main(int argc, char **argv) {
         auto lp = grid.getLoadedPoints();
         std::vector<double> ev;
         grid.evaluateBatch(lp, ev);
+        const double *lv = grid.getLoadedValues();
         for (size_t i = 0; i < nloaded; i++) {
             fin << "LP " << pid_of(&lp[i * g_dims]);
             for (size_t o = 0; o < g_outs; o++) { snprintf(tmp, sizeof tmp, " %a", ev[i * g_outs + o]); fin << tmp; }
+            fin << " |";
+            for (size_t o = 0; o < g_outs; o++) { snprintf(tmp, sizeof tmp, " %a", lv[i * g_outs + o]); fin << tmp; }
             fin << "\n";
         }
+        int missing = 0;
+        if (grid.isLocalPolynomial()) {
+            if (gtype == "semilocalp") missing = count_missing_parents<RuleLocal::erule::semilocalp>(lp, g_dims);
+            else if (gtype == "localp0") missing = count_missing_parents<RuleLocal::erule::localp0>(lp, g_dims);
+            else missing = count_missing_parents<RuleLocal::erule::localp>(lp, g_dims);
+        }
+        fin << "COMPLETE " << (missing == 0 ? 1 : 0) << " " << missing << "\n";
     }
     if (mode == "lnv") { // the points whose values were requested, in the library's order
         fin << "LNV " << lnv_points.size() / g_dims;
